@@ -207,6 +207,31 @@ def run(ctx: core.Ctx):
                                        sizes_on_the_wire=[len(p) for _, p in raw][:12] if 'raw' in dir() else None))
             break
 
+    # ---- B1c: the same with full-size packets (payloads of 2^24-1 bytes and more) BEHIND packets that are still buffered
+    bigcases = [[(5, False), (7, False), (M, False), (3, False)], [(5, False), (M + 1, False), (2, True)]]
+    if not ctx.quick:
+        bigcases += [[(9, False), (2 * M, True), (1, False)], [(1, False), (M - 1, False), (M, False)], [(4, False), (2 * M + 1, False)]]
+    for sc in (bigcases if not ctx.violations else []):
+        payloads = [(bytes(range(256)) * (n // 256 + 1))[k:k + n] for k, (n, _) in enumerate(sc)]
+        s0 = rng.randrange(256)
+        got = impl.run_stream_writes([(p, d) for p, (_, d) in zip(payloads, sc)], start_seq=s0)
+        distinct.add(("wseq-big", tuple(sc)))
+        ctx.evals += 1
+        try:
+            re_ = cl.reassemble(got)
+            ok = [p for _, p, _ in re_] == payloads
+            q = s0
+            for fs, _, npk in re_:
+                ok = ok and fs == q % 256
+                q += npk
+            shown = [(fs, len(p), npk) for fs, p, npk in re_][:8]
+        except Exception as e:  # noqa
+            ok, shown = False, repr(e)[:200]
+        if not ok:
+            core.report_violation(ctx, "a sequence of buffered writes with a full-size packet is not delivered as the same payloads in order",
+                                  dict(kind="write-sequence-big", writes=[dict(size=n, drain=d) for n, d in sc], start_seq=s0, reassembled=shown))
+            break
+
     # ---- B2: write side, length level incl. multiples of M -------------------------------------
     lens = [0, 1, M - 1, M, M + 1] if ctx.quick else [0, 1, 2, M - 2, M - 1, M, M + 1, 2 * M - 1, 2 * M, 2 * M + 1, 3 * M, 3 * M + 1]
     mlens = core.run_coq_terms(ctx, "c04l", HEADER, [f"frame_lens M {n}" for n in lens])
